@@ -33,6 +33,34 @@ func c15GenNQDoc(r *hx.Rand, nq bool) []byte {
 			sb.WriteString(hx.Pick(r, []string{"# comment é\n", "\n", "  \t\n", "#\r\n", "# <http://e/x> \"\n"}))
 		}
 		ln = strings.TrimSuffix(ln, " .")
+		if r.Chance(1, 3) { // spellings the encoder never chooses: the remaining ECHAR, UCHAR for ordinary characters
+			ln = strings.ReplaceAll(ln, "'", "\\'")
+			// one ASCII letter inside an IRIREF or a string literal (not in a blank node label, a language tag or an escape)
+			var cand []int
+			inIRI, inStr := false, false
+			for i := 0; i < len(ln); i++ {
+				switch c := ln[i]; {
+				case c == '\\' && (inIRI || inStr):
+					if i+1 < len(ln) && (ln[i+1] == 'u' || ln[i+1] == 'U') {
+						i += map[byte]int{'u': 5, 'U': 9}[ln[i+1]]
+					} else {
+						i++
+					}
+				case c == '<' && !inStr:
+					inIRI = true
+				case c == '>' && inIRI:
+					inIRI = false
+				case c == '"' && !inIRI:
+					inStr = !inStr
+				case (inIRI || inStr) && (c >= 'a' && c <= 'z' || c >= 'A' && c <= 'Z'):
+					cand = append(cand, i)
+				}
+			}
+			if len(cand) > 0 && r.Bool() {
+				i := hx.Pick(r, cand)
+				ln = ln[:i] + fmt.Sprintf(hx.Pick(r, []string{"\\u%04x", "\\u%04X", "\\U%08x"}), ln[i]) + ln[i+1:]
+			}
+		}
 		ln = strings.Replace(ln, " ", hx.Pick(r, []string{" ", "\t", "  "}), 1)
 		sb.WriteString(ln + hx.Pick(r, []string{" .", ".", " . # trailing", "\t.", " # before the dot\n.", "#c\r\n ."}))
 		if i < len(lines)-1 || r.Chance(2, 3) {
